@@ -137,7 +137,13 @@ def cases(ctx):
             words = r.choice([800, 2000, 3300])
             tag = r.choice('uvwxyz') + str(r.randrange(10 ** 6))
             calls.append((r.choice(FUNCS), '|'.join('%s%d' % (tag, i) for i in range(words)), 'x', ''))
-        evil = r.choice([(r'(a+)+$', 'a' * 40 + '!'), (r'(a|aa)+$', 'a' * 60 + '!'), (r'\w*\w*\w*\w*\w*\w*\d$', 'a' * 3000 + '!'), (r'(?:a|aa)+b|c', ('a' * 21 + 'c ') * 300)])
+        EVIL = [(r'(a+)+$', 'a' * 40 + '!'), (r'(a|aa)+$', 'a' * 60 + '!'), (r'\w*\w*\w*\w*\w*\w*\d$', 'a' * 3000 + '!'), (r'(?:a|aa)+b|c', ('a' * 21 + 'c ') * 300)]
+        if r.random() < 0.5:
+            # a call that times out (the host callback swallows the error) BEFORE the other calls: a failure must not disarm what follows
+            # (these three are observed to run into the 50 ms timeout with the regex engine in use; (a+)+$ is optimised away by it)
+            e0 = r.choice([(r'(a|aa)+$', 'a' * 60 + '!'), (r'\w*\w*\w*\w*\w*\w*\d$', 'a' * 3000 + '!'), (r'(a|a)+$', 'a' * 40 + '!')])
+            calls.insert(r.randrange(len(calls) + 2) if len(calls) > 1 else 1, (r.choice(FUNCS), e0[0], e0[1], ''))
+        evil = r.choice(EVIL)
         calls.append((r.choice(FUNCS), evil[0], evil[1], ''))
         yield ('seq', calls)
     for _ in range(ctx.scale(90, 1500)):
@@ -153,6 +159,16 @@ def cases(ctx):
         fl = r.choice(FLAGS) if r.random() < 0.6 else ''
         yield ('call', FUNCS[n % 3], p, s, fl, name)
         n += 1
+
+
+class LyingStr(str):
+    def __new__(cls, text, n):
+        o = str.__new__(cls, text)
+        o.n = n
+        return o
+
+    def __len__(self):
+        return self.n
 
 
 def run_seq(case, ctx):
@@ -193,6 +209,11 @@ def run_case(case, ctx):
         return run_seq(case, ctx)
     _, fn, pattern, subject, flags, family = case
     names = {'s': subject, 'p': pattern}
+    wrap = (len(pattern) * 7 + len(subject)) % 9
+    if wrap in (0, 1, 2):
+        # host strings that are str subclasses reporting a length of their own (a preview, a fixed-width field): the bound is in the real lengths
+        names['s' if wrap != 2 else 'p'] = LyingStr(subject if wrap != 2 else pattern, 10 ** 10 if wrap == 0 else 0)
+        ctx.count('calls_with_a_str_subclass_reporting_its_own_length')
     if flags is None:
         src = '%s(s, p)' % fn
     else:
